@@ -47,6 +47,18 @@ def eattrs(attrs) -> str:
     return elist([es(k) + " " + eattrval(v) for k, v in attrs])
 
 
+def eattrarg(v) -> str:
+    """('none',) ('false',) ('true',) ('str', s) ('html', s) ('num', txt) ('bad',)"""
+    k = v[0]
+    return {"none": "an", "false": "af", "true": "at", "bad": "ab"}.get(k) or (
+        {"str": "as ", "html": "ah ", "num": "am "}[k] + es(v[1]))
+
+
+def eattrdict(d) -> str:
+    """[(raw_key, attrarg), ...]"""
+    return elist([es(k) + " " + eattrarg(v) for k, v in d])
+
+
 def ekvs(d) -> str:
     return elist([es(k) + " " + es(v) for k, v in d])
 
@@ -132,6 +144,17 @@ def p_attr(t: Toks):
     k = p_str(t)
     kind = t.next()
     return (k, (kind, p_str(t)))
+
+
+def p_attrarg(t: Toks):
+    k = t.next()
+    if k in ("an", "af", "at", "ab"):
+        return ({"an": "none", "af": "false", "at": "true", "ab": "bad"}[k],)
+    return ({"as": "str", "ah": "html", "am": "num"}[k], p_str(t))
+
+
+def p_attrpair(t: Toks):
+    return (p_str(t), p_attrarg(t))
 
 
 def p_kv(t: Toks):
